@@ -153,6 +153,8 @@ func propC08(c *Check) {
 	c.Rule("R2", "cap agreement: PrepareProposal stops adding mempool txs when len+1 reaches the same maxTxLen that ProcessProposal enforces")
 	c.Rule("R3", "sibling agreement between verifyEthBlockProposal (proposal check) and NewEthBlock (execution): proposer = consensus proposer = fee recipient, parent hash, number+1, beacon root, VerifyDequeue, decodable requests, exactly one gas request; createEthBlockProposal sources the same state")
 	c.Rule("R4", "engine verdict: NewPayloadV4 error or non-VALID rejects; ForkchoiceUpdatedV3 error, non-VALID or nil payload id fails the proposal")
+	c.Rule("R6", "byte budget: every mempool tx that enters the prepared proposal passes a guard comparing a size that includes this tx and the block tx with RequestPrepareProposal.MaxTxBytes (CometBFT refuses to build a proposal block whose txs exceed it, for every proposer alike)")
+	c.Rule("R7", "proposal/finalise agreement: no begin-of-block code writes a collection that the proposal-time dequeue and its re-verification in MsgNewEthBlock read (the proposal handlers run on the last committed state without the begin blockers; the message is the first tx of the block)")
 	c.Rule("R5", "goroutine isolation: no memory reachable from captured variables is written by one errgroup closure (callees to depth 3 included) and read or written by its sibling")
 
 	maxTx, _ := constant.Int64Val(p.LookupObj("x/goat/keeper", "maxTxLen").(*types.Const).Val())
@@ -243,6 +245,14 @@ func propC08(c *Check) {
 			case oneElemPrepend(txsVal, mem) && regexp.MustCompile(`^new\(\[\]\[\]byte\)#\d+$`).MatchString(mem):
 				pat = fmt.Sprintf(`^\(\(1 \+ %s\) < %d\)$|^\(\(1 \+ %s\) <= %d\)$|^\(%s < %d\)$|^\(%s <= %d\)$`, L, maxTx, L, maxTx-1, L, maxTx-1, L, maxTx-2)
 				c.Held("R2", "response-composition @ "+FuncKey(outer), p.Pos(outer.Pos()), "Txs = [block tx] + collected mempool txs")
+			case oneElemThenLoopOver(txsVal, mem) && regexp.MustCompile(`^new\(\[\]\[\]byte\)#\d+$`).MatchString(mem):
+				// Txs starts as [blockTx] and grows by at most one element of mem per iteration of a loop over mem
+				pat = fmt.Sprintf(`^\(\(1 \+ %s\) < %d\)$|^\(\(1 \+ %s\) <= %d\)$|^\(%s < %d\)$|^\(%s <= %d\)$`, L, maxTx, L, maxTx-1, L, maxTx-1, L, maxTx-2)
+				c.Held("R2", "response-composition @ "+FuncKey(outer), p.Pos(outer.Pos()), "Txs = [block tx] + a selection of the collected mempool txs (one per loop iteration)")
+			case (txsVal == mem+"[:φ{(1 + @)|1}]" || txsVal == mem+"[:φ{(1 + @)|0}]") && slot0 && regexp.MustCompile(`^new\(\[\d+\]\[\]byte\)#\d+\[:1\]$`).MatchString(mem):
+				// a prefix of the collected slice (whose reserved slot 0 holds the block tx): never longer than the slice
+				pat = fmt.Sprintf(`^\(%s < %d\)$|^\(%s <= %d\)$|^\(\(1 \+ %s\) <= %d\)$`, L, maxTx, L, maxTx-1, L, maxTx)
+				c.Held("R2", "response-composition @ "+FuncKey(outer), p.Pos(outer.Pos()), "Txs = a prefix of the collected slice whose reserved slot 0 holds the block tx")
 			case txsVal == mem && slot0 && regexp.MustCompile(`^new\(\[\d+\]\[\]byte\)#\d+\[:1\]$`).MatchString(mem):
 				pat = fmt.Sprintf(`^\(%s < %d\)$|^\(%s <= %d\)$|^\(\(1 \+ %s\) <= %d\)$`, L, maxTx, L, maxTx-1, L, maxTx)
 				c.Held("R2", "response-composition @ "+FuncKey(outer), p.Pos(outer.Pos()), "Txs = collected slice whose reserved slot 0 holds the block tx")
@@ -254,6 +264,9 @@ func propC08(c *Check) {
 			}
 		}
 	}
+
+	c.prepareByteBudget("R6")
+	c.beginBlockKeepsProposalInputs("R7")
 
 	// R3 siblings
 	V := p.MustFn("x/goat/keeper.Keeper.verifyEthBlockProposal$1")
@@ -428,6 +441,45 @@ func keys(m map[string]string) []string {
 }
 
 // oneElemPrepend: v is append([x], mem) with exactly one literal element x.
+// oneElemThenLoopOver: v is φ{[X]|append(@, [mem[i]])} with i the canonical counter of a loop over mem:
+// the slice starts with one element and receives at most one element of mem per iteration.
+func oneElemThenLoopOver(v, mem string) bool {
+	if !strings.HasPrefix(v, "φ{") || !strings.HasSuffix(v, "}") {
+		return false
+	}
+	alts := splitTop(v[len("φ{") : len(v)-1])
+	if len(alts) != 2 {
+		return false
+	}
+	grow := "append(@, [" + mem + "[φ{(1 + @)|0}]])"
+	var first string
+	switch {
+	case alts[0] == grow:
+		first = alts[1]
+	case alts[1] == grow:
+		first = alts[0]
+	default:
+		return false
+	}
+	if !strings.HasPrefix(first, "[") || !strings.HasSuffix(first, "]") || !balancedTop(first[1:len(first)-1]) {
+		return false
+	}
+	depth := 0
+	for _, ch := range first[1 : len(first)-1] {
+		switch ch {
+		case '(', '[', '{':
+			depth++
+		case ')', ']', '}':
+			depth--
+		case ',':
+			if depth == 0 {
+				return false
+			}
+		}
+	}
+	return true
+}
+
 func oneElemPrepend(v, mem string) bool {
 	if !strings.HasPrefix(v, "append([") || !strings.HasSuffix(v, "], "+mem+")") {
 		return false
